@@ -202,6 +202,12 @@ def boundary_events(k1, k2, svc):
         pk = spell(key.pk)
         eid = ref.compute_id(pk, T, 1, [], "spelled " + lab)
         out.append((lab, {"id": eid, "pubkey": pk, "created_at": T, "kind": 1, "tags": [], "content": "spelled " + lab, "sig": key.sign(bytes.fromhex(eid))}))
+    # events that merely CLAIM the relay's own service key (its public half is public): they go through every
+    # configured validator like anybody's
+    eid = ref.compute_id(svc.pk, T, 1, [], "claims the service key, zero sig " + "x" * 200)
+    out.append(("claims-service-key/zero-sig+too-large", {"id": eid, "pubkey": svc.pk, "created_at": T, "kind": 1, "tags": [], "content": "claims the service key, zero sig " + "x" * 200, "sig": "00" * 64}))
+    eid = ref.compute_id(svc.pk, T - 5000, 31494, [["d", "auth:" + k2.pk]], "arws")
+    out.append(("claims-service-key/forged-role-grant", {"id": eid, "pubkey": svc.pk, "created_at": T - 5000, "kind": 31494, "tags": [["d", "auth:" + k2.pk]], "content": "arws", "sig": k2.sign(bytes.fromhex(eid))}))
     return out
 
 
@@ -297,6 +303,8 @@ async def run_pipelines(backend, n, counters, seed):
                 ok = oks[-1][1][2] if oks else None
                 reason = oks[-1][1][3] if oks else ""
                 rejecting = [p.rsplit(".", 1)[1] for p in pipe if REF[p](raw, cfg, NOW)]
+                if ref.authentic(raw)[0] is False and raw["pubkey"] == raw["pubkey"].lower():
+                    rejecting = ["is_signed"] + rejecting
                 if raw["pubkey"] != raw["pubkey"].lower():
                     # never admissible: not canonical hex; named after the list it would evade when one is configured
                     low = dict(raw, pubkey=raw["pubkey"].lower())
